@@ -24,7 +24,7 @@ LANDMARKS = {
     "without_isolated-unpair": ("BpSeq.without_isolated", "to_unpair.append(stem.strand3p.first - 1)"),
     "without_isolated-noop": ("BpSeq.without_isolated", "return self"),
 }
-OPS = ["str", "pairs", "sequence", "dot_bracket", "fcfs", "all_dot_brackets", "elements", "without_pseudoknots", "without_isolated", "eq_fresh"]
+OPS = ["str", "pairs", "paired", "paired5to3", "sequence", "dot_bracket", "fcfs", "all_dot_brackets", "elements", "without_pseudoknots", "without_isolated", "eq_fresh"]
 _cur = {}
 
 
@@ -49,6 +49,10 @@ def _apply(obj, op, fresh_text):
         return str(obj), None
     if op == "pairs":
         return sorted(obj.pairs.items()), None
+    if op == "paired":
+        return [(e.index_, e.pair) for e in obj.paired()], None
+    if op == "paired5to3":
+        return [(e.index_, e.pair) for e in obj.paired(only5to3=True)], None
     if op == "sequence":
         return obj.sequence, None
     if op == "dot_bracket":
